@@ -264,39 +264,56 @@ func ruleC04Normalised(rule string) func(p *Prog, r *Result) {
 					}
 					bad := ""
 					nElem := 0
-					for _, ref := range *res.Referrers() {
-						switch x := ref.(type) {
-						case *ssa.DebugRef:
-						case *ssa.Call:
-							if bi, ok := x.Common().Value.(*ssa.Builtin); ok && bi.Name() == "len" {
-								continue
-							}
-							bad = "the undecoded slice is passed on as a whole"
-						case *ssa.IndexAddr:
-							for _, r2 := range *x.Referrers() {
-								ld, ok := r2.(*ssa.UnOp)
-								if !ok {
-									bad = "element address escapes"
+					// the slice may be handed whole to a helper of the repository, whose uses of it then count
+					var uses func(v ssa.Value, depth int)
+					uses = func(v ssa.Value, depth int) {
+						for _, ref := range *v.Referrers() {
+							switch x := ref.(type) {
+							case *ssa.DebugRef:
+							case *ssa.Call:
+								if bi, ok := x.Common().Value.(*ssa.Builtin); ok && bi.Name() == "len" {
 									continue
 								}
-								nElem++
-								for _, r3 := range *ld.Referrers() {
-									switch y := r3.(type) {
-									case *ssa.DebugRef:
-									case *ssa.Call:
-										sc := y.Common().StaticCallee()
-										if sc == nil || !p.InRepo(sc) || p.FuncName(sc) != "bkl.normalize" {
-											bad = "a decoded document is used by " + calleeName(p, y.Common()) + " before it is normalised"
+								if sc := x.Common().StaticCallee(); sc != nil && p.InRepo(sc) && len(sc.Blocks) > 0 && depth < 3 && p.FuncName(sc) != "bkl.normalize" {
+									followed := false
+									for j, a := range x.Common().Args {
+										if a == v && j < len(sc.Params) {
+											uses(sc.Params[j], depth+1)
+											followed = true
 										}
-									default:
-										bad = fmt.Sprintf("a decoded document is used (%T) before it is normalised", r3)
+									}
+									if followed {
+										continue
 									}
 								}
+								bad = "the undecoded slice is passed on as a whole"
+							case *ssa.IndexAddr:
+								for _, r2 := range *x.Referrers() {
+									ld, ok := r2.(*ssa.UnOp)
+									if !ok {
+										bad = "element address escapes"
+										continue
+									}
+									nElem++
+									for _, r3 := range *ld.Referrers() {
+										switch y := r3.(type) {
+										case *ssa.DebugRef:
+										case *ssa.Call:
+											sc := y.Common().StaticCallee()
+											if sc == nil || !p.InRepo(sc) || p.FuncName(sc) != "bkl.normalize" {
+												bad = "a decoded document is used by " + calleeName(p, y.Common()) + " before it is normalised"
+											}
+										default:
+											bad = fmt.Sprintf("a decoded document is used (%T) before it is normalised", r3)
+										}
+									}
+								}
+							default:
+								bad = fmt.Sprintf("decoded documents flow into %T without normalisation", ref)
 							}
-						default:
-							bad = fmt.Sprintf("decoded documents flow into %T without normalisation", ref)
 						}
 					}
+					uses(res, 0)
 					if bad == "" && nElem == 0 {
 						bad = "no element of the decoded stream is read"
 					}
